@@ -78,6 +78,8 @@ func (s *symSigner) Sign(rand io.Reader, content []byte) (ret []byte, err error)
 		return nil, nil
 	case "bytes+err":
 		return []byte{0xde, 0xad, 0xbe, 0xef}, errInjected
+	case "panic":
+		panic("injected signer panic")
 	case "reenter":
 		// a key that uses the library itself before it looks at its input (a notary checking or producing other messages first):
 		// the input must still be what the library handed over
@@ -134,8 +136,9 @@ func reenterLibrary() {
 type symVerifier struct {
 	name  string
 	alg   cose.Algorithm
-	fault string // "", "err" (an error that is not ErrVerification), "accept" (accepts anything)
+	fault string // "", "err" (an error that is not ErrVerification), "accept" (accepts anything), "err1accept" (an outage on the first call, then accepts anything)
 	log   *spyLog
+	calls int
 }
 
 func (v *symVerifier) Algorithm() cose.Algorithm {
@@ -147,11 +150,18 @@ func (v *symVerifier) Verify(content, signature []byte) error {
 	if v.fault == "reenter" {
 		reenterLibrary()
 	}
+	if v.fault == "panic" {
+		v.log.add(J{"who": v.name, "call": "Verify", "content": ints(content), "sig": ints(signature), "valid": false, "reterr": "panic", "fault": v.fault})
+		panic("injected verifier panic")
+	}
 	valid := string(signature) == string(pseudoSig(v.name, content))
 	var err error
+	v.calls++
 	switch {
-	case v.fault == "err":
+	case v.fault == "err" || (v.fault == "err1accept" && v.calls == 1):
 		err = errInjectedVerify
+	case v.fault == "err1accept":
+		err = nil
 	case v.fault == "accept" || valid:
 		err = nil
 	default:
@@ -165,6 +175,7 @@ func (v *symVerifier) Verify(content, signature []byte) error {
 type budgetReader struct {
 	budget int // -1 unlimited
 	short  bool
+	eof    bool // fail with io.EOF (a finite source that ran dry: a file, a pipe) instead of a custom error
 	log    *spyLog
 	mu     sync.Mutex
 	ctr    byte
@@ -180,6 +191,9 @@ func (r *budgetReader) Read(p []byte) (int, error) {
 	r.log.add(J{"who": "rand", "call": "Read", "n": len(p), "fail": fail})
 	if r.budget >= 0 {
 		if r.budget == 0 {
+			if r.eof {
+				return 0, io.EOF
+			}
 			return 0, errEntropy
 		}
 		if n > r.budget {
@@ -194,6 +208,9 @@ func (r *budgetReader) Read(p []byte) (int, error) {
 	if n < len(p) {
 		if r.short {
 			return n, nil
+		}
+		if r.eof {
+			return n, io.EOF
 		}
 		return n, errEntropy
 	}
@@ -335,7 +352,8 @@ func (w *world) readerOf(x any) io.Reader {
 	}
 	v := x.(map[string]any)
 	b, _ := v["short"].(bool)
-	return &budgetReader{budget: num(v["budget"]), short: b, log: w.log}
+	e, _ := v["eof"].(bool)
+	return &budgetReader{budget: num(v["budget"]), short: b, eof: e, log: w.log}
 }
 
 func extArg(st J) []byte {
@@ -502,19 +520,19 @@ func newOfKind(kind string) any {
 func unmarshalInto(o any, b []byte) error {
 	switch v := o.(type) {
 	case *cose.Sign1Message:
-		return v.UnmarshalCBOR(b)
+		return viaRecv(b, v.UnmarshalCBOR)
 	case *cose.UntaggedSign1Message:
-		return v.UnmarshalCBOR(b)
+		return viaRecv(b, v.UnmarshalCBOR)
 	case *cose.SignMessage:
-		return v.UnmarshalCBOR(b)
+		return viaRecv(b, v.UnmarshalCBOR)
 	case *cose.Signature:
-		return v.UnmarshalCBOR(b)
+		return viaRecv(b, v.UnmarshalCBOR)
 	case *cose.Countersignature:
-		return v.UnmarshalCBOR(b)
+		return viaRecv(b, v.UnmarshalCBOR)
 	case *cose.ProtectedHeader:
-		return v.UnmarshalCBOR(b)
+		return viaRecv(b, v.UnmarshalCBOR)
 	case *cose.UnprotectedHeader:
-		return v.UnmarshalCBOR(b)
+		return viaRecv(b, v.UnmarshalCBOR)
 	}
 	return fmt.Errorf("unmarshalInto: %T", o)
 }
@@ -860,7 +878,7 @@ func (w *world) step(st J) J {
 				b = bytesOf(raw)
 			}
 			var msg *cose.Sign1Message
-			msg, err = cose.VerifyHashEnvelope(v, b)
+			err = viaRecv(b, func(x []byte) error { var e error; msg, e = cose.VerifyHashEnvelope(v, x); return e })
 			obs["msgnil"] = msg == nil
 			if msg != nil {
 				w.objs[name] = msg
